@@ -508,7 +508,40 @@ def h_context_snapshot(spec):
 h_compute.shards = 16
 h_pre_checks.shards = 16
 h_post_checks.shards = 16
-TASKS = [h_stable_equal, h_compute, h_pre_checks, h_post_checks, h_iso_now, h_timing, h_context_snapshot]
+class DigestSpec(PureLibMixin, BaseSpec):
+    """canonical_json_bytes: the bytes every SER digest is computed from"""
+
+    def __init__(self):
+        super().__init__(PROP)
+        self.inline_files |= {"semantiva/trace/_utils.py"}
+
+
+def h_canonical_json(spec):
+    s2 = DigestSpec()
+    s2.obligations, s2._seen, s2.undecided, s2.functions, s2.used_contracts = spec.obligations, spec._seen, spec.undecided, spec.functions, spec.used_contracts
+    fn_info(s2, "semantiva/trace/_utils.py", "canonical_json_bytes")
+
+    def body(I):
+        st = I.st
+        c = st.choose(3, "shape of the value")
+        obj = in_dict(I, "obj") if c == 0 else (in_list(I, "obj") if c == 1 else z3.Const("obj", V))
+        shape = ["mapping", "list", "scalar"][c]
+        out = E.execute(I, E.hfunc("semantiva/trace/_utils.py", "canonical_json_bytes"), [obj])
+        if out[0] != "return":
+            s2.oblige(I, f"canonical_json_bytes[{shape}]/never-raises", z3.BoolVal(False))
+            return
+        bad = sorted(r for r in st.reads if r[0] == "ambient")
+        s2.oblige(I, f"canonical_json_bytes[{shape}]/frame:no-ambient-reads", z3.BoolVal(not bad), meta={"reads": [str(r) for r in bad]})
+        if is_v(out[1]):
+            oracles = sorted(order_oracles_in(z3.simplify(out[1])))
+            s2.oblige(I, f"canonical_json_bytes[{shape}]/digest-bytes-independent-of-mapping-order(any-depth)", z3.BoolVal(not oracles),
+                      meta={"oracles": oracles, "witness": "digest-order"})
+    E.run_function(s2, "canonical_json_bytes", body)
+    spec.path_count += s2.path_count
+    spec.assumptions |= s2.assumptions
+
+
+TASKS = [h_stable_equal, h_compute, h_pre_checks, h_post_checks, h_iso_now, h_timing, h_context_snapshot, h_canonical_json]
 
 
 def factory():
